@@ -16,7 +16,8 @@ import (
 // Part 2: an idle chain in LAZY mode. The REAL AggregationLoop (lazy mode, block interval 1 s, idle interval 2 s) and the
 // real submission loops run as threads of the cooperative scheduler (canonical order) under virtual time; the sequencing
 // layer only ever hands out empty batches (no transactions arrive). The explorer chooses, per DA block, whether the DA
-// layer is down, and whether the node is restarted (crash or clean stop; new Manager and new loops over the image left
+// layer is down — answering every request with an error, or giving NO answer to the requests of that DA block (on an idle
+// chain these are header submissions; the call returns only when the caller gives it up) —, and whether the node is restarted (crash or clean stop; new Manager and new loops over the image left
 // behind) at that DA-block boundary. After the outage the DA layer accepts everything; block production must resume.
 
 func lazyBody(t *testing.T, c *explore.Ctx, blocks int, sh sharder) (out outcome) {
@@ -32,10 +33,15 @@ func lazyBubble(c *explore.Ctx, blocks int, sh sharder) (out outcome) {
 	env.Seq.Next = func(req coreseq.GetNextBatchRequest) world.SeqAnswer {
 		return world.SeqAnswer{Kind: "batch", Time: time.Now()}
 	}
-	outage := false
+	outage, lost, lostCalls := false, false, 0
+	defer func() { out.lost = lostCalls }()
 	env.DA.SubmitPolicy = func(blobs [][]byte) world.SubmitAnswer {
 		if outage {
 			return world.SubmitGenericError
+		}
+		if lost {
+			lostCalls++
+			return world.SubmitNoAnswer
 		}
 		return world.SubmitAcceptAll
 	}
@@ -78,11 +84,14 @@ func lazyBubble(c *explore.Ctx, blocks int, sh sharder) (out outcome) {
 			sched.Drain()
 		}
 	}
-	sawOutage, restarts, restartAfterAck := false, 0, false
+	sawOutage, sawLost, restarts, restartAfterAck := false, false, 0, false
 	tags := func() []string {
 		tg := []string{"lazy-mode", "idle-chain"}
 		if sawOutage {
 			tg = append(tg, "da-outage")
+		}
+		if lostCalls > 0 {
+			tg = append(tg, "da-request-unanswered")
 		}
 		if restarts > 0 {
 			tg = append(tg, "node-restart")
@@ -139,14 +148,24 @@ func lazyBubble(c *explore.Ctx, blocks int, sh sharder) (out outcome) {
 			break // the last restart point lies before the closing phase
 		}
 		outage = c.Choose("outage", 2) == 1
+		lost = !outage && c.Choose("lost", 2) == 1
 		if outage {
 			sawOutage = true
 			out.events = append(out.events, fmt.Sprintf("DA block %d: outage", b+1))
 		}
+		if lost {
+			sawLost = true
+			out.events = append(out.events, fmt.Sprintf("DA block %d: requests get no answer", b+1))
+		}
 		second()
+		lost = false
 	}
 	outage = false
-	for b := 0; b < 4; b++ { // the DA layer accepts everything (covers the longest back-off)
+	closing := 4
+	if sawLost { // the node is given lostHorizon accepting DA blocks to give the unanswered call up and send the blobs again
+		closing += lostHorizon
+	}
+	for b := 0; b < closing; b++ { // the DA layer accepts everything (4 DA blocks cover the longest back-off)
 		second()
 	}
 	select {
@@ -161,7 +180,7 @@ func lazyBubble(c *explore.Ctx, blocks int, sh sharder) (out outcome) {
 	}
 	h2 := n.Height()
 	if h2 <= h1 {
-		out.fail = &world.Fail{Clause: "resumes-after-acceptance", Msg: fmt.Sprintf("lazy mode, idle chain, limit %d: the DA layer has been accepting everything for 4 DA blocks, yet in the following 5 s (two idle intervals and a block interval) no block was produced (height stays %d)", limit, h1)}
+		out.fail = &world.Fail{Clause: "resumes-after-acceptance", Msg: fmt.Sprintf("lazy mode, idle chain, limit %d: the DA layer has been accepting everything for %d DA blocks, yet in the following 5 s (two idle intervals and a block interval) no block was produced (height stays %d; pending counters: headers %d, data %d; %d request(s) of an earlier DA block got no answer)", limit, closing, h1, n.M.VerifNumPendingHeaders(), n.M.VerifNumPendingData(), lostCalls)}
 		out.tags = tags()
 		return
 	}
